@@ -86,6 +86,8 @@ func (v *Value) UnmarshalNBT(tagType byte, r nbt.DecoderReader) error {
 			return errNegativeLength
 		} else if t > nbt.TagLongArray {
 			return fmt.Errorf("dynbt: unknown Tag %#02x", t)
+		} else if t == nbt.TagEnd && length > 0 {
+			return nbt.ErrEND
 		}
 
 		v.list = v.list[:0]
